@@ -13,6 +13,14 @@ pub fn verif_dir() -> PathBuf {
     PathBuf::from("/verif")
 }
 
+/// where evidence and replay artefacts go (mutation runs redirect them away from /verif)
+pub fn out_dir() -> PathBuf {
+    if let Ok(d) = std::env::var("VERIF_OUT") {
+        return PathBuf::from(d);
+    }
+    verif_dir()
+}
+
 pub struct Matcher {
     pub system: String,
     pub kind: String,
@@ -92,7 +100,7 @@ fn fnv(s: &str) -> u64 {
 #[allow(clippy::too_many_arguments)]
 pub fn finish(prop: &str, tier: &str, seed: i64, jobs: &[Box<dyn JobT>], outcomes: &[JobOutcome], extra: Option<Extra>, wall_s: f64, level_note: &str) -> Summary {
     let findings = load_findings();
-    let vd = verif_dir();
+    let vd = out_dir();
     let replay_dir = vd.join("replays").join(prop);
     let _ = std::fs::create_dir_all(&replay_dir);
     let mut known: BTreeMap<String, (u64, u64, String)> = BTreeMap::new(); // id -> (cores, histories, what)
@@ -105,6 +113,11 @@ pub fn finish(prop: &str, tier: &str, seed: i64, jobs: &[Box<dyn JobT>], outcome
             machinery_error = true;
         }
         for c in o.cores.iter() {
+            if c.kind == "explorer-self-check" {
+                eprintln!("MACHINERY: explorer self-check failed in {}: {} ({})", o.label, c.example.detail, c.example_text);
+                machinery_error = true;
+                continue;
+            }
             let mut hit = None;
             for f in findings.iter().filter(|f| f.property == prop) {
                 if f.matchers.iter().any(|m| m.system == o.system && m.kind == c.kind && (m.core == "*" || m.core == c.core_key)) {
